@@ -11,29 +11,29 @@ def run(ctx):
     L = C.lift(ctx, 'C27', os.path.join(H, 'wrap.cpp'), ROOTS, ub=True)
     known = dict(C.load_known('C27'))
     qs = []
-    qs.append(Query('roundtrip', L, os.path.join(H, 'h_roundtrip.c'), unwind=70, timeout=300,
+    qs.append(Query('roundtrip', L, os.path.join(H, 'h_roundtrip.c'), unwind=70, timeout=900,
                     desc='fromString(getFullString(h))==h, all 2^256 values'))
-    qs.append(Query('ops', L, os.path.join(H, 'h_ops.c'), unwind=10, timeout=300, desc='==,!=,<,^ on all pairs of hashes'))
+    qs.append(Query('ops', L, os.path.join(H, 'h_ops.c'), unwind=10, timeout=900, desc='==,!=,<,^ on all pairs of hashes'))
     modes = range(7) if thorough else (0, 1, 2, 3, 4, 6)
     for m in modes:
         d = ['MODE=%d' % m]
         if 'zero-short' in known:
-            qs.append(Query('short-m%d' % m, L, os.path.join(H, 'h_short.c'), d + ['EXCLUDE_ZERO_CACHE'], unwind=70, timeout=600,
+            qs.append(Query('short-m%d' % m, L, os.path.join(H, 'h_short.c'), d + ['EXCLUDE_ZERO_CACHE'], unwind=70, timeout=1200,
                             desc='getString is the 16-char prefix of getFullString, object history %d, known finding excluded' % m))
         else:
-            qs.append(Query('short-m%d' % m, L, os.path.join(H, 'h_short.c'), d, unwind=70, timeout=600,
+            qs.append(Query('short-m%d' % m, L, os.path.join(H, 'h_short.c'), d, unwind=70, timeout=1200,
                             desc='getString is the 16-char prefix of getFullString, object history %d' % m))
     if 'zero-short' in known:
-        qs.append(Query('short-known', L, os.path.join(H, 'h_short.c'), ['MODE=0'], unwind=70, timeout=600, expect='fail',
+        qs.append(Query('short-known', L, os.path.join(H, 'h_short.c'), ['MODE=0'], unwind=70, timeout=1200, expect='fail',
                         known='key=zero-short ' + known['zero-short'], desc='re-confirm listed finding'))
     nb = 8 if thorough else 4
     if 'hash-signed-overflow' in known:
-        qs.append(Query('hash-ub-known', L, os.path.join(H, 'h_hash.c'), ['NB=%d' % nb], unwind=10, timeout=300, expect='fail',
+        qs.append(Query('hash-ub-known', L, os.path.join(H, 'h_hash.c'), ['NB=%d' % nb], unwind=10, timeout=900, expect='fail',
                         known='key=hash-signed-overflow ' + known['hash-signed-overflow'], desc='re-confirm listed finding'))
     else:
-        qs.append(Query('hash-ub', L, os.path.join(H, 'h_hash.c'), ['NB=%d' % nb], unwind=10, timeout=300,
+        qs.append(Query('hash-ub', L, os.path.join(H, 'h_hash.c'), ['NB=%d' % nb], unwind=10, timeout=900,
                         desc='hash(bytes): no UB (signed overflow, shifts, bounds), all byte strings of length <= %d' % nb))
-    qs.append(Query('hash-det', L, os.path.join(H, 'h_hash.c'), ['NB=2', 'DET'], unwind=10, timeout=300,
+    qs.append(Query('hash-det', L, os.path.join(H, 'h_hash.c'), ['NB=2', 'DET'], unwind=10, timeout=900,
                     desc='hash(bytes) is a function of the bytes: two calls on equal contents at different addresses agree, length <= 2'))
     if ctx.only:
         import re
